@@ -260,6 +260,10 @@ def gcheck(toks):
     """returns None (agree) | 'skip:<why>' | (key, detail)"""
     from bbv.model import refparse
     from bbv.g4 import sentences as S_
+    if toks.count("PWR") >= 2 and "COMPLEX" in toks:
+        # a tower of powers with a complex operand: the relative error of z**w grows with |w log z|, a tower compounds it,
+        # and intermediate results leave the double range at ordinary arguments - no fixed tolerance is sound there
+        return "skip:complex-power-tower"
     texts = gtexts(toks)
     line = S_.to_text(toks, dict(zip(toks, texts))) if False else _join(toks, texts)
     script = "name g\nversion 1.0\n\n" + GPRE + line + ("" if line.endswith("\n") else "\n")
